@@ -26,7 +26,7 @@ OBLIGATIONS = ["NiftyVerif.C12." + t for t in (
     "categorical_factor", "softmax_group_sum", "L_Lh_eq_M_categorical", "categorical_global_sum_defect",
     "L_is_pullback_gaussian", "L_is_pullback_studentt", "L_is_pullback_poisson",
     "expected_pullback_vcgauss_partial",
-    "M_is_fisher_poisson", "M_is_fisher_gaussian", "M_is_fisher_vcgauss", "M_is_fisher_categorical",
+    "M_is_fisher_poisson", "M_is_fisher_gaussian", "M_is_fisher_vcgauss", "M_is_fisher_categorical", "categorical_score",
     "with_model_factor", "sum_factor", "partial_factor", "with_model_fisher", "sum_fisher", "partial_fisher",
 )]
 RULE = ("cases = real likelihood objects built from generated JSON: 7 implementations x (scalar | batched | Vector-pytree "
